@@ -38,7 +38,10 @@ var placements3 = []struct {
 	d float64
 }{{model3d.XYZ(0, 0, 0), 1}, {model3d.XYZ(0.1, -0.7, 2.3), 0.3}}
 
-var algos3 = []string{"MarchingCubes", "MarchingCubesSearch2", "MarchingCubesFilterTrue", "MarchingCubesSearchFilter1"}
+var algos3 = []string{"MarchingCubes", "MarchingCubesSearch2", "MarchingCubesFilterTrue", "MarchingCubesSearchFilter1", "MarchingCubesInterior0", "MarchingCubesInterior2"}
+
+// the derived entry points (conjugated, coarse-to-fine), run on an eighth of the assignments
+var algos3Derived = []string{"MarchingCubesConjShift", "MarchingCubesConjTurn", "MarchingCubesC2F", "MarchingCubesC2F2"}
 
 func runMC3(algo string, s model3d.Solid, d float64) *model3d.Mesh {
 	switch algo {
@@ -50,9 +53,37 @@ func runMC3(algo string, s model3d.Solid, d float64) *model3d.Mesh {
 		return model3d.MarchingCubesFilter(s, func(*model3d.Rect) bool { return true }, d)
 	case "MarchingCubesSearchFilter1":
 		return model3d.MarchingCubesSearchFilter(s, func(*model3d.Rect) bool { return true }, d, 1)
+	case "MarchingCubesInterior0":
+		m, _ := model3d.MarchingCubesInterior(s, d, 0)
+		return m
+	case "MarchingCubesInterior2":
+		m, _ := model3d.MarchingCubesInterior(s, d, 2)
+		return m
+	case "MarchingCubesConjShift":
+		// the conjugated lattice is the same lattice (shift by whole cells)
+		return model3d.MarchingCubesConj(s, d, 1, &model3d.Translate{Offset: model3d.XYZ(3*d, -2*d, d)})
+	case "MarchingCubesConjTurn":
+		// quarter turn about z then a shift: lattice onto lattice, orientation kept. (A reflecting conjugation
+		// returns the mesh inside out - Mesh.Transform does not re-orient - which the function's comment
+		// describes literally and the property, quantified over solids and spacings, does not exclude.)
+		// The lattice solid's box sticks out half a cell on the far side only; centred{} makes the excess a
+		// quarter cell on both sides, so that the turned box puts the samples in the same cells again.
+		return model3d.MarchingCubesConj(centred{s, d}, d, 1, &model3d.Matrix3Transform{Matrix: &model3d.Matrix3{0, 1, 0, -1, 0, 0, 0, 0, 1}}, &model3d.Translate{Offset: model3d.XYZ(0, d, 0)})
+	case "MarchingCubesC2F":
+		return model3d.MarchingCubesC2F(s, d, d, 0, 1)
+	case "MarchingCubesC2F2":
+		return model3d.MarchingCubesC2F(s, 2*d, d, 0, 0)
 	}
 	panic("algo")
 }
+
+type centred struct {
+	model3d.Solid
+	d float64
+}
+
+func (c centred) Min() model3d.Coord3D { return c.Solid.Min().Sub(model3d.XYZ(c.d, c.d, c.d).Scale(0.25)) }
+func (c centred) Max() model3d.Coord3D { return c.Solid.Max().Sub(model3d.XYZ(c.d, c.d, c.d).Scale(0.25)) }
 
 func ambiguous3(s *lat.Solid3) bool {
 	// some lattice square (in any axis plane, including the outer layer) has the
@@ -99,13 +130,23 @@ func checkMC3(r *ev.Run, c mcCase) {
 		r.Violation("mc3/"+c.Algo+"/"+kind, rep.String(), c)
 		return
 	}
+	// the side of the surface is judged where the algorithm sampled the cell: at the lattice point, except for
+	// the turned conjugation of the centred box, whose samples sit a quarter cell off it (x: +, y and z: -)
+	var probeOff model3d.Coord3D
+	if c.Algo == "MarchingCubesConjTurn" {
+		probeOff = model3d.XYZ(0.25, -0.25, -0.25).Scale(pl.d)
+	}
 	for k := -1; k <= s.N[2]; k++ {
 		for j := -1; j <= s.N[1]; j++ {
 			for i := -1; i <= s.N[0]; i++ {
-				w := topo.Winding3(tris, s.Point(i, j, k).Array())
+				w := topo.Winding3(tris, s.Point(i, j, k).Add(probeOff).Array())
 				want := 0.0
 				if s.At(i, j, k) {
 					want = 1
+				}
+				if c.Algo == "MarchingCubesC2F2" && math.Abs(w) <= 1e-6 {
+					// documented: details the coarse pass misses altogether are absent from the fine mesh
+					continue
 				}
 				if !(math.Abs(w-want) <= 1e-6) {
 					r.Violation("mc3/"+c.Algo+"/winding", fmt.Sprintf("winding %g at lattice point (%d,%d,%d), want %g", w, i, j, k, want), c)
@@ -148,6 +189,10 @@ func enumMC3(r *ev.Run, dims [][3]int) {
 							checkMC3(r, mcCase{Kind: "mc3", Algo: a, N: nn, Bits: b, Place: 0, Between: mode})
 							r.Eval(1)
 						}
+					}
+					for _, a := range algos3Derived {
+						checkMC3(r, mcCase{Kind: "mc3", Algo: a, N: nn, Bits: b, Place: 0})
+						r.Eval(1)
 					}
 				}
 			}
